@@ -103,6 +103,11 @@ def vars_of(I, obj):
     if c in ("Add", "Multiply") and is_slist(obj.fields.get("_inners")):
         from . import gmode
         sl = obj.fields["_inners"]
+        if isinstance(sl, gmode.SnocList):
+            t = gmode.bigunion(I, sl.rest.length, lambda u: vars_of(I, sl.rest.elem(u)), f"Vars({obj.name})")
+            for pobj in sl.suffix:
+                t = sym.union(t, vars_of(I, pobj))
+            return t
         if isinstance(sl, gmode.ConsList):
             wo = getattr(sl.rest, "without_of", None)
             if wo is not None:
@@ -267,6 +272,23 @@ def _table_den(I, obj, pt):
     raise KeyError(c)
 
 
+def _partition_lemma(I, obj, part, pt):
+    """The sum (product) over a list is the sum (product) over the entries that satisfy a
+    predicate combined with that over the others (spec/lemmas.lean: ax_bigsum_partition,
+    ax_bigprod_partition)."""
+    from . import gmode
+    twin = getattr(part, "partition_twin", None)
+    fo = getattr(part, "filter_of", None)
+    if twin is None or fo is None or gmode.keying():
+        return
+    whole = fo[0]
+    big = gmode.bigsum if obj.cls.name == "Add" else gmode.bigprod
+    a = big(I, lambda t: den(I, part.elem(t), pt).V, part.length)
+    b = big(I, lambda t: den(I, twin.elem(t), pt).V, twin.length)
+    w = big(I, lambda t: den(I, whole.elem(t), pt).V, whole.length)
+    gmode.qm(I).links.append(w == (a + b if obj.cls.name == "Add" else a * b))
+
+
 def _no_dv(name):
     from .interp import Unsupported
     raise Unsupported("G-mode: derivative of a node with a split operand list")
@@ -276,6 +298,16 @@ def _gmode_den(I, obj, pt):
     """Add / Multiply of symbolic arity: big operators over the children family."""
     from . import gmode
     sl = obj.fields["_inners"]
+    if isinstance(sl, gmode.SnocList):
+        suf = [den(I, pobj, pt) for pobj in sl.suffix]
+        rk = lambda t: den(I, sl.rest.elem(t), pt)
+        D = z3.And(gmode.forall_const(I, sl.rest.length, lambda t: rk(t).D, f"D({obj.name})"), *[d.D for d in suf])
+        big = gmode.bigsum if obj.cls.name == "Add" else gmode.bigprod
+        V = big(I, lambda t: rk(t).V, sl.rest.length)
+        for d in suf:
+            V = (V + d.V) if obj.cls.name == "Add" else (V * d.V)
+        _partition_lemma(I, obj, sl.rest, pt)
+        return Den(D, V, _no_dv)
     if isinstance(sl, gmode.ConsList):
         # a few known operands in front of a symbolic-length list: the sum / product splits
         # (cons lemma); only D and V are defined for such nodes (they are results, not receivers)
